@@ -792,6 +792,10 @@ func (w *worker) Run(ctx context.Context, req taskRunRequest, reply *taskRunRepl
 	}
 	task.state = TaskRunning
 	task.Unlock()
+	// As in the local executor, the scope holds the metrics of this run
+	// of the task only: a revived task must not accumulate the metrics
+	// of its earlier runs.
+	task.Scope.Reset(nil)
 	// Gather inputs from the bigmachine cluster, dialing machines
 	// as necessary.
 	var (
